@@ -30,8 +30,21 @@ from props.comps_flatten import S
 
 NO_AVOID = set(filter(None, os.environ.get("YMOD_NO_AVOID", "").split(",")))
 
+# findings of this oracle that were repaired in /repo (tag -> fix commit): their constructs are generated again, a
+# reappearance is a plain violation; the witness modules stay in corpus/ymod-findings.txt and must pass (RegressionRT)
+FIXED = {
+    "tree-ext-noplugin-crash": "43fdcc7", "tree-ext-noplugin-crash-node": "43fdcc7", "compiled-print-ext-order": "d3bb587",
+    "yin-text-ext-order": "19b0db8", "yin-iffeature-ext": "eb88192", "ext-disabled-stale-slot": "5ff71a8",
+    "bit-ext-dropped": "f458f0a", "submodule-toplevel-ext-dropped": "ea4f583", "toplevel-uses-ext-crash": "d11bafb",
+    "yin-ext-substmt-text": "a7f915d", "yin-ext-substmt-unquoted": "de4b88c", "yin-ext-substmt-index": "5e04ad1",
+    "yin-xmlns-unescaped": "db375d0", "yin-submodule-xmlns-prefix": "36df73d", "yin-ext-arg-element-blank": "932327e",
+}
+
 
 def avoid(tag):
+    """is the construct of the listed (still open) finding left out of the generated modules"""
+    if tag in FIXED:
+        return False
     return tag not in NO_AVOID and "all" not in NO_AVOID
 
 
@@ -1261,6 +1274,7 @@ class ModGen:
             pick.remove("mandatory")
         if "default" in pick and "min-elements" in pick:
             pick.remove("min-elements")
+        n.refined = True
         for k in pick:
             rf.subs += opts[k]()
         if "default" in pick and n.kw == "leaf":
@@ -1647,10 +1661,15 @@ class ModGen:
               "contact", "organization", "error-message", "error-app-tag", "fraction-digits", "require-instance", "path",
               "modifier", "base", "if-feature", "yin-element", "revision-date", "belongs-to", "argument"}
 
-    def decorate(self, st, in_ext=False, path=()):
+    DATA_KW = ("container", "leaf", "leaf-list", "list", "choice", "case", "anydata", "anyxml")
+
+    def decorate(self, st, in_ext=False, path=(), amended=False):
         """extension instances under every kind of statement"""
         if ":" in st.kw:
             return
+        # a node that a refine changes is duplicated before it is compiled and the copies of its extension instances lose
+        # their substatement (listed finding amend-dup-ext-parent-stmt): none under the substatements of such a node
+        amended = (amended and st.kw not in self.DATA_KW) or (getattr(st, "refined", False) and avoid("amend-dup-ext-parent-stmt"))
         if st.kw == "belongs-to" and avoid("compiled-print-ext-order"):
             return      # (the instances under its prefix share the submodule's array: see one_slot below)
         # the compiled extension instances of a submodule's header statements are appended to the module's array after
@@ -1663,7 +1682,11 @@ class ModGen:
         # the compiled printer stops at the first extension instance of a node that belongs to another substatement
         # (listed finding compiled-print-ext-order): with it avoided, the instances of one statement and of its
         # substatements without a structure of their own (they share one array) are all in one place
-        one_slot = avoid("compiled-print-ext-order")
+        # the YIN parser notes the array of a type / enum / bit for later when one of fraction-digits, require-instance,
+        # value, position has been read and appends to it afterwards (listed finding yin-unres-exts-realloc): there, too
+        # all instances in a refine / deviation are copied to the target node as the node's own (the same finding)
+        one_slot = avoid("compiled-print-ext-order") or (st.kw in ("type", "enum", "bit") and avoid("yin-unres-exts-realloc")) or \
+            (st.kw in ("refine", "deviation") and avoid("amend-dup-ext-parent-stmt"))
         simple = [c for c in st.subs if c.kw in self.SIMPLE]
         own = any(":" in c.kw for c in st.subs)
         slot = None
@@ -1694,10 +1717,11 @@ class ModGen:
                     if x.kw not in self.SIMPLE:
                         self.decorate(x)
                 continue
-            self.decorate(c)
+            self.decorate(c, amended=amended)
             if ":" in c.kw:
                 continue
-            if (one_slot and c.kw in self.SIMPLE and c is not slot) or (plug_node and c.kw in self.SIMPLE):
+            if (one_slot and c.kw in self.SIMPLE and c is not slot) or (plug_node and c.kw in self.SIMPLE) or \
+                    (amended and c.kw in self.SIMPLE):
                 continue
             if not getattr(c, "own_ext_ok", True):
                 continue
@@ -1719,6 +1743,18 @@ class ModGen:
                 for _ in range(rng.choice([1, 1, 2])):
                     c.subs.insert(rng.randrange(len(c.subs) + 1), self.ext_instance())
         st.own_ext_ok = (not one_slot or slot is None or not any(":" in x.kw for x in slot.subs)) and not plug_node
+
+
+    def mp_first(self, st):
+        """the tree printer looks for a printing plugin at the FIRST extension instance of a node only (listed finding
+        tree-ext-first-record): in a node with a mount-point the node's own instances are written before its
+        substatements, as the printer does, so that the first one stays the first"""
+        if ":" in st.kw:
+            return
+        if any(c.kw.startswith("yangmnt:") for c in st.subs):
+            st.subs = [c for c in st.subs if ":" in c.kw] + [c for c in st.subs if ":" not in c.kw]
+        for c in st.subs:
+            self.mp_first(c)
 
     no_ext_under = set()
 
@@ -1884,6 +1920,8 @@ class ModGen:
                                                 not (self.has_plugin_ext and avoid("ext-storage-realloc-dangling")))) and un.own_ext_ok:
                 for _ in range(rng.choice([1, 2])):
                     un.subs.insert(rng.randrange(len(un.subs) - 1, len(un.subs) + 1), self.ext_instance())
+        if avoid("tree-ext-first-record"):
+            self.mp_first(main)
         out = {self.name: main}
         if sub is not None:
             out[self.subname] = sub
@@ -2133,9 +2171,27 @@ class ModuleRT:
             out.append(line)
         return out
 
+    def regression_cases(self):
+        """the witness modules of the findings that were repaired: they go through all checks like any other module"""
+        import json
+        out = []
+        try:
+            known = json.load(open(os.path.join(vlib.VERIF, "known_findings.d", "ymod.json")))
+        except (OSError, ValueError):
+            return out
+        for k in known:
+            rc = k.get("regression_case")
+            if k.get("status") != "fixed" or not isinstance(rc, dict) or "corpus_line" not in rc:
+                continue
+            fn, idx = rc["corpus_line"]
+            lines = [l.rstrip("\n") for l in open(os.path.join(vlib.VERIF, fn)) if l.strip() and not l.startswith("#")]
+            self.cases[lines[idx]] = {"kind": "regression", "valid": True, "name": k["tag"]}
+            out.append(lines[idx])
+        return out
+
     def gen(self, rng, tier, scale=1.0):
         self.support = self.support_defs()
-        L = []
+        L = self.regression_cases()
         L += self.gen_module_cases(rng, "refine", nfeat=1)
         # every alternative of every deviation target once: round r takes the r-th alternative of each
         for r in range(max(len(v) for v in DEVIATES.values())):
@@ -2155,19 +2211,9 @@ class ModuleRT:
 
     # ---- verdict ----
     def attribute(self, check, kind, f, line):
-        """tag of the listed finding a failed check is an instance of (recognised from what the driver reports about
-        the failing place, never from the module as a whole), or None"""
-        if kind == "crash" and check == "tree-crash" and f[0] == "1":
-            return "tree-ext-noplugin-crash"
-        if kind == "error" and check in ("yin-parse", "ni-yin-parse") and "\x01" in f[0]:
-            msg, where = f[0].split("\x01", 1)
-            ls = where.split("\n")
-            # <description/> followed by <text>: the argument element of a text statement inside an extension instance is
-            # printed after its parent instead of in it
-            if re.search(r'Sub-element "(text|value)" of "[a-z-]+" element must be defined as it\'s first sub-element', msg) and \
-                    len(ls) >= 2 and re.fullmatch(r"\s*<(description|reference|contact|organization|error-message)/>", ls[0]) and \
-                    re.match(r"\s*<(text|value)>", ls[1]):
-                return "yin-ext-substmt-text"
+        """tag of the listed finding a failed check is an instance of, or None. The findings that were recognised here
+        from the driver's answer (tree-ext-noplugin-crash, yin-ext-substmt-text) are repaired (FIXED): nothing is
+        attributed any more, the constructs of the open findings are not generated"""
         return None
 
     def judge(self, line, out):
@@ -2176,6 +2222,9 @@ class ModuleRT:
             return (None, "crash: " + out)
         if out.startswith("?"):
             return (None, "protocol: " + out)
+        if out.startswith("E!") and meta["kind"] == "regression":
+            return (None, "the witness module of the repaired finding %s is rejected: %s" % (
+                meta.get("name"), unhex(out[2:]).decode("utf-8", "replace")[:300]))
         if out.startswith("E!"):
             if meta["valid"]:
                 self.skipped += 1
